@@ -67,7 +67,14 @@ class CallMixin:
                 args, kwargs = self.eval_args(node, st)
                 params = dict(zip(ext["param_names"], args))
                 params.update(kwargs)
-                self.trust("external function %s used by stated contract (source: %s)" % (nm, ext.get("source", "?")))
+                if ext.get("verified_by"):
+                    # the dependency's installed source is itself under contract: same clauses, verified as its own function
+                    vb = self.contracts.get(ext["verified_by"])
+                    if vb is None or vb.get("trusted") or any(vb.get(k) != ext.get(k) for k in ("requires", "ensures", "returns")):
+                        raise VCError("external::%s: verified_by entry missing or its clauses differ" % nm)
+                    self.trust("external function %s: call sites bind `%s` to the installed %s (import resolution not verified)" % (nm, nm, ext.get("source", "?")))
+                else:
+                    self.trust("external function %s used by stated contract (source: %s)" % (nm, ext.get("source", "?")))
                 return self.apply_contract("external::" + nm, ext, params, node, st)
             fv = self.global_name(nm, node, st)
             if isinstance(fv, Fn):
